@@ -14,3 +14,5 @@ unsigned gh_handler_calls; const struct _scpi_command_t *gh_h_cmd; const char *g
 char *gh_buf; size_t gh_buflen;
 scpi_result_t gh_h_ret; scpi_bool_t gh_h_cmderr; scpi_bool_t gh_h_unread; int gh_h_items;
 unsigned gh_parse_calls;
+
+unsigned gh_cv_calls; int gh_cv_kind, gh_cv_base; unsigned long long gh_cv_bits; size_t gh_cv_used; float gh_cv_f; double gh_cv_d;
